@@ -147,10 +147,72 @@ def check(ctx):
     u = unparse(bl)
     ok = "if self.broadcast_side in ('left', 'leftsemi'):" in u and "_merge_args.reverse()" in u
     ctx.ob("ALG.join-side.broadcast-arg-order", bl, "merge arguments are (other, broadcast), reversed when the left side is broadcast", ok)
+    # ---------------- partitioning claims: who may say "hash partitioned by the join keys"
+    # Downstream merges/groupbys skip their shuffle when an input claims its rows are mapped to
+    # partitions by the key columns.  A hash join earns the claim {left_on, right_on}; a broadcast join
+    # shuffles nothing and must report the partitioning of the side that is not broadcast.
+    mp = merge.own_methods.get("unique_partition_mapping_columns_from_shuffle")
+    bj_ci = model.klass(MG, "BroadcastJoin")
+    bp = bj_ci.own_methods.get("unique_partition_mapping_columns_from_shuffle")
+    if mp is None:
+        raise AnchorMissing("Merge.unique_partition_mapping_columns_from_shuffle")
+    key_claims = [r for r in returns(mp) if isinstance(r.value, ast.Set) and "self.left_on" in unparse(r.value) and "self.right_on" in unparse(r.value)]
+    ctx.count("join_key_partitioning_claims", len(key_claims))
+    ctx.floor("join_key_partitioning_claims", 1)
+    for r in key_claims:
+        facts = {(unparse(e), pol) for e, pol in cfg_of(mp).facts(r)}
+        ok = ("self.is_broadcast_join", False) in facts or any(e.startswith("'broadcast' in self._parameters and self.is_broadcast_join") and pol is False for e, pol in facts)
+        ctx.ob("ALG.partitioning-claim.merge", r, "Merge claims {left_on, right_on} only when it is not lowered to a broadcast join", ok, "" if ok else "a merge that will be lowered to BroadcastJoin (no shuffle) still claims hash partitioning by the keys: a following merge/groupby on the key skips its shuffle and loses rows")
+    ok = bp is not None and "left_on" not in unparse(bp) and "right_on" not in unparse(bp)
+    ctx.ob("ALG.partitioning-claim.broadcast", bp or bj_ci.node, "BroadcastJoin reports the partitioning of the un-broadcast side (does not inherit the key claim)", ok, "" if ok else "BroadcastJoin inherits Merge's claim of being hash partitioned by the join keys")
+    os_ = merge.own_methods.get("_unique_partition_mapping_columns_of_other_side")
+    ok = os_ is not None and bool(find("other = self.right if self.broadcast_side == 'left' else self.left", os_)) and "other.unique_partition_mapping_columns_from_shuffle" in unparse(os_)
+    ctx.ob("ALG.partitioning-claim.other-side", os_ or merge.node, "the un-broadcast side is right when the left is broadcast, else left", ok)
+    bm = model.klass(MG, "BlockwiseMerge").own_methods.get("unique_partition_mapping_columns_from_shuffle")
+    ok = bm is not None and "self.left.unique_partition_mapping_columns_from_shuffle" in unparse(bm) and "self.right.unique_partition_mapping_columns_from_shuffle" in unparse(bm)
+    ctx.ob("ALG.partitioning-claim.blockwise", bm or merge.node, "BlockwiseMerge reports what its (already shuffled) inputs report", ok)
+    # ---------------- left/right mirror symmetry of the hash-join lowering
+    lw = merge.own_methods["_lower"]
+
+    def mirror(txt):
+        return txt.replace("left", "\0").replace("right", "left").replace("\0", "right")
+    rbc = [c for c in calls(lw, "RearrangeByColumn")]
+    lefts = [c for c in rbc if unparse(c.args[0]) == "left"]
+    rights = [c for c in rbc if unparse(c.args[0]) == "right"]
+    ctx.count("side_shuffles", len(rbc))
+    ctx.floor("side_shuffles", 4, "RearrangeByColumn(left|right, ...) in Merge._lower")
+    for cl in lefts:
+        want = mirror(unparse(cl))
+        ok = any(unparse(cr) == want for cr in rights)
+        ctx.ob("SIB.mirror.shuffle", cl, f"the shuffle of the right input mirrors `{unparse(cl)[:70]}…` (left<->right)", ok, "" if ok else f"no right-hand twin `{want[:120]}`: one side is shuffled by the other side's keys/index flag, so matching rows end up in different partitions")
+    guards_l = [n for n in walk_no_nested(lw) if isinstance(n, ast.If) and unparse(n.test).startswith("shuffle_left_on and ")]
+    guards_r = [n for n in walk_no_nested(lw) if isinstance(n, ast.If) and unparse(n.test).startswith("shuffle_right_on and ")]
+    ok = len(guards_l) == 1 and len(guards_r) == 1 and mirror(unparse(guards_l[0].test)) == unparse(guards_r[0].test)
+    ctx.ob("SIB.mirror.shuffle-guard", lw, "the conditions for shuffling left and right mirror each other", ok)
+    hj = [c for c in calls(lw, "HashJoinP2P")]
+    ok = len(hj) == 1
+    if ok:
+        kw = {k.arg: unparse(k.value) for k in hj[0].keywords}
+        ok = all(kw.get(k) == v for k, v in (("left_on", "left_on"), ("right_on", "right_on"), ("left_index", "left_index"), ("right_index", "right_index"), ("shuffle_left_on", "shuffle_left_on"), ("shuffle_right_on", "shuffle_right_on"), ("how", "self.how")))
+    ctx.ob("SIB.mirror.p2p-args", lw, "HashJoinP2P receives each side's keys/index flags under that side's name", ok)
+    bjc = [c for c in calls(lw, "BroadcastJoin")]
+    ok = len(bjc) == 1 and [unparse(a) for a in bjc[0].args] == ["left", "right", "self.how", "left_on", "right_on", "left_index", "right_index", "self.suffixes", "self.indicator"]
+    ctx.ob("SIB.mirror.broadcast-args", lw, "BroadcastJoin(left, right, how, left_on, right_on, left_index, right_index, suffixes, indicator)", ok)
+    # ---------------- concat: known divisions may only be chained when strictly increasing
+    cc = model.klass("dask/dataframe/dask_expr/_concat.py", "Concat")
+    md = cc.own_methods.get("_monotonic_divisions")
+    if md is None:
+        raise AnchorMissing("Concat._monotonic_divisions")
+    cmps = [n for n in ast.walk(md) if isinstance(n, ast.Compare) and "divisions[-1]" in unparse(n.left) and "divisions[0]" in unparse(n.comparators[0])]
+    ok = len(cmps) == 1 and isinstance(cmps[0].ops[0], ast.Lt) and unparse(cmps[0]) == "dfs[i].divisions[-1] < dfs[i + 1].divisions[0]"
+    ctx.ob("ALG.concat.strict-divisions", md, "frames are chained by divisions only if last division < next first division (the last division is inclusive)", ok, "" if ok else f"comparison is `{unparse(cmps[0]) if cmps else None}`: with equality the boundary value lives in two partitions while the divisions promise one")
     T.argpos(ctx, lambda p: p.split("/")[-1] in ("_merge.py", "_merge_asof.py", "_concat.py"), "c39", floor=10)
 
 
 VARIANTS = [
+    (MG, "                index_shuffle=right_index,\n", "                index_shuffle=left_index,\n", "SIB.mirror.shuffle"),
+    (MG, "            and self.is_broadcast_join\n            and not (self.merge_indexed_left and self.merge_indexed_right)\n        ):", "            and False\n        ):", "ALG.partitioning-claim"),
+    ("dask/dataframe/dask_expr/_concat.py", "                dfs[i].divisions[-1] < dfs[i + 1].divisions[0]", "                dfs[i].divisions[-1] <= dfs[i + 1].divisions[0]", "ALG.concat.strict-divisions"),
     (MG, '                return self.how in ("left", "inner", "leftsemi")\n            elif predicate_columns.issubset(self.right.columns):\n                return self.how in ("right", "inner")', '                return self.how in ("left", "inner", "leftsemi")\n            elif predicate_columns.issubset(self.right.columns):\n                return self.how in ("right", "inner", "left")', "ALG.join-side.filter"),
     (MG, '            and not (self.how == "leftsemi" and broadcast_side == "left")\n', "", "ALG.join-side.broadcast"),
     (MG, '            and self.how != broadcast_side\n', "", "ALG.join-side.broadcast"),
